@@ -327,6 +327,67 @@ theorem temp_conversions_affine (u v : TU K) (hu : u.WFP) (hv : v.WFP) (x : K) :
         simpa using hz
       grind
 
+/-! ### the candidate repairs satisfy the full statements (design.d/C08.md) -/
+
+/-- repair 1 (`tempAddFixed`): every returned sum is the affine one — no guard -/
+theorem temp_add_fixed_correct (u0 u1 : TU K) (x0 x1 : K) (h0 : u0.WF) (h1 : u1.WF) (r : TU K × K)
+    (h : tempAddFixed exactTab u0 x0 u1 x1 = .ok r) : addSpec u0 x0 u1 x1 r := by
+  have hs0 := scale_ne u0 h0
+  have hs1 := scale_ne u1 h1
+  unfold tempAddFixed at h
+  split at h
+  · cases h
+  · split at h
+    · cases h
+    · rename_i c hc
+      have hy := convSecond_spec h0 hc x1
+      have hy0 : applyC (c.map fun _ => u0.scale exactTab / u1.scale exactTab) x0 * u1.scale exactTab
+          = x0 * u0.scale exactTab := by
+        cases c with
+        | some v => simp only [Option.map, applyC]; grind
+        | none =>
+          simp only [Option.map, applyC]
+          unfold convSecond at hc
+          split at hc
+          · rename_i he; rw [((unitEq_iff _ _ _).1 he).1]
+          · simp only at hc; split at hc <;> cases hc
+      simp only [hasOffset_exact] at h
+      split at h <;> cases h <;> simp only [addSpec] <;>
+        cases hk0 : kind u0.base <;> cases hk1 : kind u1.base <;> simp_all <;>
+        simp only [absK_eq, difK_eq] <;> grind
+
+/-- repair 3 (`tempDiffFixed`): every returned difference is right — no guard -/
+theorem temp_diff_fixed_correct (u : TU K) (xa xb : K) (r : TU K × K)
+    (h : tempDiffFixed exactTab u xa xb = .ok r) : diffSpec u xa xb r := by
+  unfold tempDiffFixed at h
+  split at h
+  · cases h
+  · rename_i hno
+    cases h
+    have hk : kind u.base = .diff := by
+      rw [hasOffset_exact] at hno
+      cases hq : kind u.base <;> simp_all
+    simp only [diffSpec, hk, den, difK_eq, true_and]; grind
+
+/-- repair 2 (`tempUnaryFixed`): every power form refuses an offset-scale quantity -/
+theorem temp_unary_fixed_refuses [RPow K] (u : TU K) (op : UnOp) (ho : onOffsetScale u = true)
+    (hop : powerLike op = true) : tempUnaryFixed exactTab op u = .error .InvalidUnitOperation := by
+  have hoff : hasOffset exactTab u = true := by rw [hasOffset_exact]; exact ho
+  cases op <;> simp only [tempUnaryFixed, hoff, Bool.true_and]
+  · simp; intro h; exact absurd h (by decide +kernel)
+  · simp; intro h; exact absurd h (by decide +kernel)
+  · exact temp_square_refuses u ho
+  · simp; intro h; exact absurd h (by decide +kernel)
+  · simp only [powerLike, Bool.and_eq_true] at hop; simp [hop.2]
+  · rename_i n
+    simp only [powerLike, decide_eq_true_eq] at hop
+    have : ((n : Rat) != 1) = true := by
+      simp only [bne_iff_ne, ne_eq]
+      intro h1
+      have : n = 1 := by exact_mod_cast h1
+      omega
+    simp [this]
+
 end general
 
 /-! ### the property at full strength, what holds, and why the full statement fails -/
